@@ -69,6 +69,10 @@ CLAIMS = {
    "Tied to the code by functional correspondence (value sets) and by the extracted Coq oracles ok_nds/ok_ranked (reflection lemmas proved) applied to the implementation's "
    "masks/indices on the exhaustive lattice and generated float sets, and to the pareto_efficient column writer.",
    note="numpy comparisons/argsort; np.ceil on dyadic fraction*n; the implementation's algorithm is tied to the model by behaviour only."),
+ "C20": dict(cat="proof", text="Coq theorems with the aggregated loss, the sorting permutation and the bagging draws as universally quantified oracles: TopK returns min(k,n) distinct valid indices of lowest loss; greedy selection (model of the repaired loop) returns strictly increasing valid indices, 1 <= count <= max(k, |init|), positive weights summing to exactly 1, never raises, terminates within an explicit fuel in three option classes, "
+   "with early stopping the final loss is no worse than the starting ensemble's and every accepted step improves by more than eps; predictions sorted by job id are in submission order for any completion permutation; pinned code refuted (F19a all-NaN, F19b non-termination); for the repaired code two option combinations are refuted and kept as open findings (F19c non-termination without early stopping + replacement + no max_it; F20 no-early-stopping can end worse). "
+   "Tie: exact functional correspondence of (indices, weights) with the extracted model driven round by round on losses computed by the REAL aggregator+loss; oracles on the implementation's outputs; OnlineSelector prefixes; EnsemblePredictor on the thread backend with every latency order of <= 4 members.",
+   note="the real aggregator/loss act as the loss oracle; numpy argsort is re-checked to be a sorting permutation on every case; CPU-time watchdog for non-termination."),
 }
 checks = []
 for p in props:
